@@ -67,14 +67,18 @@ def gen_enc(rng, reals, wf):
 
 def inline_image(rng, valid=True):
     cs = rng.choice([('DeviceGray', 1), ('Gray', 1), ('G', None), ('DeviceRGB', 3), ('RGB', 3), ('DeviceCMYK', 4), ('CMYK', 4),
-                     ('DeviceRGBA', 4), ('RGBA', 4), ('Pattern', None), ('Indexed', None)] if not valid else
-                    [('DeviceGray', 1), ('Gray', 1), ('DeviceRGB', 3), ('RGB', 3), ('DeviceCMYK', 4), ('CMYK', 4), ('RGBA', 4)])
-    w = rng.choice([1, 2, 3, 7, 8, 9])
-    h = rng.choice([1, 2, 3])
-    bpc = rng.choice([1, 2, 4, 8, 16])
+                     ('DeviceRGBA', 4), ('RGBA', 4), ('Pattern', None), ('Indexed', None)] if not valid else IMG_CS)
+    w = rng.choice([1, 2, 3, 5, 7, 8, 9, 13])
+    h = rng.choice([1, 2, 3, 5])
+    bpc = rng.choice([1, 1, 2, 4, 8, 16])
     nc = cs[1] or 1
-    n = h * ((w * nc * bpc + 7) // 8)
+    n = h * ((w * nc * bpc + 7) // 8)      # rows are padded to whole bytes one by one (ISO 32000-1 8.9.3)
     data = bytes(rng.choice([0x45, 0x49, 0x20, 0x0a, 0x00, 0xff, 0x28, 0x29, 0x41]) for _ in range(n))
+    if valid and rng.random() < 0.25 and n >= 4:
+        # " EI " inside the samples: a parser that takes too few bytes finds an end marker too early
+        i = rng.randrange(1, n - 2)
+        data = data[:i] + b' EI'[:n - i] + data[i + 3:]
+        data = data[:n]
     abbr = rng.random() < 0.5
     keys = [('W' if abbr else 'Width', str(w)), ('H' if abbr else 'Height', str(h)),
             ('CS' if abbr else 'ColorSpace', '/' + cs[0]), ('BPC' if abbr else 'BitsPerComponent', str(bpc))]
@@ -88,6 +92,69 @@ def inline_image(rng, valid=True):
     sep = rng.choice([' ', '\n', ' \n', '\r\n'])
     txt = 'BI' + sep + sep.join('/%s %s' % kv for kv in keys) + sep + 'ID' + rng.choice([' ', '\n'])
     return txt.encode() + data + rng.choice([b' ', b'\n', b'']) + b'EI' + rng.choice([b' ', b'\n', b''])
+
+
+IMG_CS = [('DeviceGray', 1), ('Gray', 1), ('DeviceRGB', 3), ('RGB', 3), ('DeviceRGBA', 4), ('RGBA', 4), ('DeviceCMYK', 4), ('CMYK', 4)]
+
+
+def image_geometry(rng, ragged=True):
+    """(colour space, components, W, H, BPC, data length).  ISO 32000-1 8.9.3: every ROW is padded to a whole byte, so the
+    length is H * ceil(W * components * BPC / 8).  ragged: more than one row and rows that do not end on a byte boundary
+    (BPC 1, 2, 4 with a fitting width), where padding per row differs from padding the whole image once."""
+    while True:
+        cs, nc = rng.choice(IMG_CS)
+        bpc = rng.choice([1, 1, 2, 4] if ragged else [1, 2, 4, 8, 8, 16])
+        w = rng.choice([1, 2, 3, 5, 6, 7, 9, 11, 13, 17, 31, 33])
+        h = rng.choice([2, 3, 4, 5, 7] if ragged else [1, 1, 2, 3])
+        rowbits = w * nc * bpc
+        if ragged and rowbits % 8 == 0:
+            continue
+        return cs, nc, w, h, bpc, h * ((rowbits + 7) // 8)
+
+
+def image_data(rng, n):
+    """image samples: arbitrary bytes, with EI / white space / delimiters inside; the first byte is not content white space
+    (the parser skips white space after ID: notes/C14.md, domain of C14_rt)"""
+    alpha = [0x45, 0x49, 0x20, 0x0a, 0x0d, 0x09, 0x00, 0xff, 0x28, 0x29, 0x41, 0x51, 0x80, 0x3e]
+    d = bytearray(rng.choice(alpha) if rng.random() < 0.7 else rng.getrandbits(8) for _ in range(n))
+    if n >= 4 and rng.random() < 0.3:
+        i = rng.randrange(n - 3)
+        d[i:i + 4] = b' EI '
+    if d and d[0] in (0x20, 0x09, 0x0d, 0x0a):
+        d[0] = rng.choice([0x45, 0x00, 0xff, 0x41])
+    return bytes(d)
+
+
+def image_operation(rng, ragged=True):
+    """an inline image as Content::decode returns it and as a program builds it: operator BI with ONE stream operand whose
+    dictionary holds W/H/CS/BPC (abbreviated or long keys, any order, optional further entries) and whose content has the
+    length the dictionary implies"""
+    cs, nc, w, h, bpc, n = image_geometry(rng, ragged)
+    abbr = rng.random() < 0.5
+    ent = [('W' if abbr else 'Width', I(w)), ('H' if abbr else 'Height', I(h)),
+           ('CS' if abbr else 'ColorSpace', N(cs)), ('BPC' if abbr else 'BitsPerComponent', I(bpc))]
+    if rng.random() < 0.3:
+        ent.append(rng.choice([('I', B(True)), ('D', A([I(1), I(0)])), ('Intent', N('Perceptual')), ('IM', B(False)),
+                               ('Length', I(n)), ('Length', I(n + 3))]))
+    rng.shuffle(ent)
+    return L('op', xb('BI'), ST(ent, image_data(rng, n))), (w, h, nc, bpc)
+
+
+def gen_enc_image(rng, reals, ragged=True):
+    """operation sequences that contain inline images (first sentence of the property on the BI form of Content::encode)"""
+    g = ObjGen(rng, reals, allow_ref=False)
+    ops = []
+    geo = []
+    for _ in range(rng.choice([1, 1, 2, 3])):
+        for _ in range(rng.choice([0, 1, 2])):
+            n = rng.choice([0, 1, 2])
+            ops.append(L('op', xb(roperator(rng, n == 0)), *[g.obj(rng.choice([0, 1])) for _ in range(n)]))
+        o, ge = image_operation(rng, ragged)
+        ops.append(o)
+        geo.append(ge)
+    if rng.random() < 0.5:
+        ops.append(L('op', xb('Q')))
+    return g.finish(L('enc', L('ops', *ops), 'wf')), geo
 
 
 def gen_dec(rng):
@@ -137,6 +204,11 @@ def gen_cases(rng, tier):
     for a in rows:
         ops = [L('op', xb('Tj'), L('n', xb(bytes([a, b]))), L('s', xb(bytes([a, b])))) for b in range(256)]
         cases.append((L('enc', L('ops', *ops), 'wf'), {'kind': 'enc-pair-sweep', 'nontrivial': True}))
+    # inline images written by Content::encode: every colour space the parser accepts x BPC 1/2/4 x widths whose rows do
+    # not end on a byte boundary x several rows (ragged), and byte-aligned / single-row / 8- and 16-bit ones
+    for k in range(n // 5):
+        c, geo = gen_enc_image(rng, reals, ragged=(k % 4 != 3))
+        cases.append((c, {'kind': 'enc-image-ragged' if k % 4 != 3 else 'enc-image', 'nontrivial': True}))
     for k in range(n):
         r = rng.random()
         if r < 0.04:
@@ -269,7 +341,10 @@ SPEC = {
                     'for every dec case',
     'rule': 'byte-pair sweep rows (every second byte after a fixed first byte as name and as literal-string operand; all 65 536 pairs in '
             'the thorough tier); random operation sequences (operators over the parser alphabet, 0-6 operands of every direct kind nested to depth 3, '
-            'adversarial bytes in names/strings, f32 reals printed by Rust itself) encoded then decoded; raw content streams '
+            'adversarial bytes in names/strings, f32 reals printed by Rust itself) encoded then decoded; operation sequences holding '
+            'inline images as BI + one stream operand (all 8 colour-space names the parser accepts, abbreviated and long keys, '
+            'BPC 1/2/4 with widths whose rows do not end on a byte boundary and 2-7 rows, also aligned / single-row / 8- and 16-bit, '
+            'samples containing EI and white space) encoded then decoded; raw content streams '
             '(token soup with comments, all EOL flavours, valid and invalid inline images, byte damage) decoded, re-encoded, '
             'decoded again; non-trivial = at least one operation; distinct = distinct case text',
     'extra_trusted': ['C14: reals are compared as f32 bit patterns (exact decimal->f32 rounding in lib/vlib.py); '
